@@ -249,8 +249,8 @@ def auth_cases(ctx):
 
 def run(ctx):
     import logging
-    logging.getLogger("deep").setLevel(logging.CRITICAL + 1)
-    logging.getLogger().setLevel(logging.CRITICAL + 1)
+    from ..lib.quiet import quiet_logging
+    quiet_logging()
     from deep.push import convert_snapshot
     from deep.api.tracepoint.eventsnapshot import WatchResult, VariableId, Variable
     from deepproto.proto.tracepoint.v1.tracepoint_pb2 import Snapshot
